@@ -43,9 +43,18 @@ type c09Case struct {
 	PreAbort bool `json:"abort_before_panic,omitempty"`
 	// Logger: handlers.ConsoleLogger is the first global middleware and the request's path is on its skip list
 	Logger bool `json:"console_logger_skipping_this_path,omitempty"`
+	// NoGlobal: the router has no global middleware at all (the chain of a custom NotFound / NotAllowed is then the router's own slice)
+	NoGlobal bool `json:"no_global_middleware,omitempty"`
 }
 
 type c09Val struct{ A, B int }
+
+var c09WriteErr = errors.New("write error: the client is gone")
+
+// failW is a caller's writer whose Write always fails
+type failW struct{ *recW }
+
+func (w failW) Write(b []byte) (int, error) { return 0, c09WriteErr }
 
 // c09Marshal panics while it is being encoded
 type c09Marshal struct{}
@@ -64,6 +73,9 @@ func c09Value(kind string) any {
 		return http.ErrAbortHandler // what a reverse proxy panics with
 	case "int":
 		return 42
+	case "write-fails":
+		// raised by Context.WriteString when the caller's writer refuses the bytes (a client that is gone)
+		return c09WriteErr
 	case "jsonp-marshal":
 		// raised inside the JSONP helper: the value's MarshalJSON panics while the response is being rendered
 		return "boom-in-marshal"
@@ -84,7 +96,7 @@ type c09Router struct {
 
 func newC09Router(c c09Case) *c09Router {
 	cr := &c09Router{}
-	k := newKindRouter(kindCfg{Hook: false, OnError: c.Where == "onerror", Cache: c.N%2 == 0})
+	k := newKindRouter(kindCfg{Hook: false, OnError: c.Where == "onerror", Cache: c.N%2 == 0, NoGlobal: c.NoGlobal})
 	cr.k = k
 	r := k.r
 	switch c.Hook {
@@ -134,6 +146,11 @@ func newC09Router(c c09Case) *c09Router {
 		if c.Value == "invalid-status" {
 			ctx.SetStatus(99)
 			ctx.WriteString("x") // the commit of status 99 panics inside the caller's writer
+			cr.log = append(cr.log, "no-panic-from-writer")
+			return
+		}
+		if c.Value == "write-fails" {
+			ctx.WriteString("x")
 			cr.log = append(cr.log, "no-panic-from-writer")
 			return
 		}
@@ -248,6 +265,9 @@ func c09Run(c c09Case, st *fw.Stats) []fw.Viol {
 		if c.PlainW {
 			under = struct{ http.ResponseWriter }{w}
 		}
+		if c.Value == "write-fails" {
+			under = failW{w}
+		}
 		pv = try(func() { entry.ServeHTTP(under, httptest.NewRequest(m, p, nil)) })
 		return
 	}
@@ -328,6 +348,9 @@ func c09Run(c c09Case, st *fw.Stats) []fw.Viol {
 			if c.Committed {
 				wantBody += "x"
 			}
+			if c.Value == "write-fails" {
+				committed = true // the refused write had already committed 200
+			}
 			if c.Value == "jsonp-marshal" && strings.Contains(string(w.body), "cb(") {
 				// the JSONP helper had already sent the callback name (and so committed its status 200) when the value's
 				// encoder panicked; a helper that renders into a buffer first sends nothing - both are fine
@@ -407,6 +430,9 @@ func c09Gen(tier string, emit func(c09Case)) {
 									emit(c09Case{Where: "chain", N: n, Split: sp, Pos: pos, When: when, Value: v, Hook: hk, Logger: true, Committed: true})
 									emit(c09Case{Where: "chain", N: n, Split: sp, Pos: pos, When: when, Value: "invalid-status", Hook: hk})
 									emit(c09Case{Where: "chain", N: n, Split: sp, Pos: pos, When: when, Value: "invalid-status", Hook: hk, PanicsMW: true})
+									if hk == "absent" || hk == "nothing" || hk == "status" {
+										emit(c09Case{Where: "chain", N: n, Split: sp, Pos: pos, When: when, Value: "write-fails", Hook: hk, Twice: true})
+									}
 									emit(c09Case{Where: "chain", N: n, Split: sp, Pos: pos, When: when, Value: "jsonp-marshal", Hook: hk})
 									emit(c09Case{Where: "chain", N: n, Split: sp, Pos: pos, When: when, Value: "jsonp-marshal", Hook: hk, PanicsMW: true})
 								}
@@ -439,6 +465,9 @@ func c09Gen(tier string, emit func(c09Case)) {
 								emit(c09Case{Where: where, N: n, Pos: pos, When: when, Value: v, Hook: hk, PanicsMW: f&1 != 0, Committed: f&2 != 0})
 							}
 							emit(c09Case{Where: where, N: n, Pos: pos, When: when, Value: v, Hook: hk, Mounted: true})
+							if where != "onerror" {
+								emit(c09Case{Where: where, N: n, Pos: pos, When: when, Value: v, Hook: hk, NoGlobal: true, Twice: true})
+							}
 						}
 					}
 				}
@@ -450,7 +479,7 @@ func c09Gen(tier string, emit func(c09Case)) {
 var c09Spec = fw.Spec[c09Case]{
 	ID:    "C09",
 	Level: "model_checking",
-	Rule: "complete product: chain shapes n<=3 (thorough 5) x every global/group/route split x every panic position x {before Next, after Next, without Next} x panic value {string, error, struct, http.ErrAbortHandler, int} x hook {absent, does nothing, status only, status+body, body only, AbortWithStatus(503, message)} x {PanicsHandler middleware} x {a byte committed before the panic} (+ the panic request issued twice) (+ the router mounted behind a front router that passes its context on with HandleContext) (+ under the Timeout middleware with a deadline that is far away / has already passed) (+ on a caller's writer without Flush) (+ the panicking handler calls Abort first) (+ handlers.ConsoleLogger first in the chain with the request's path on its skip list) (+ the panic raised by the caller's ResponseWriter when the handler commits status 99) (+ the panic raised by a value's MarshalJSON inside the JSONP helper), plus panics inside NotFound / NotAllowed / OnError handlers; each followed by every one of 15 follow-up request kinds compared with a fresh identical router; " +
+	Rule: "complete product: chain shapes n<=3 (thorough 5) x every global/group/route split x every panic position x {before Next, after Next, without Next} x panic value {string, error, struct, http.ErrAbortHandler, int} x hook {absent, does nothing, status only, status+body, body only, AbortWithStatus(503, message)} x {PanicsHandler middleware} x {a byte committed before the panic} (+ the panic request issued twice) (+ the router mounted behind a front router that passes its context on with HandleContext) (+ under the Timeout middleware with a deadline that is far away / has already passed) (+ on a caller's writer without Flush) (+ the panicking handler calls Abort first) (+ handlers.ConsoleLogger first in the chain with the request's path on its skip list) (+ the panic raised by the caller's ResponseWriter when the handler commits status 99) (+ the panic raised by a value's MarshalJSON inside the JSONP helper) (+ the panic raised by WriteString on a caller's writer that refuses every byte), plus panics inside NotFound / NotAllowed / OnError handlers (NotFound / NotAllowed also on a router without any global middleware); each followed by every one of 15 follow-up request kinds compared with a fresh identical router; " +
 		"every case is non-trivial (a panic is raised in each)",
 	Assume: []string{"for the in-chain PanicsHandler only 'the panic does not escape' and 'follow-ups are unaffected' are asserted (the statement promises nothing else for it)", "when the hook sets no status, any single committed status is accepted"},
 	Bounds: func(tier string) map[string]any {
